@@ -34,7 +34,7 @@ def run(chk, tier, seed):
             fail = "save/load does not succeed: " + o[:200]
         else:
             p = o.split(" ", 3)
-            expect = TG.coq_val(x)
+            expect = TG.coq_val(TG.loaded_expectation(t, x))
             if p[3] != expect and not ignorable(t):
                 fail = "loaded value differs from the saved one: loaded %s expected %s" % (p[3][:300], expect[:300])
             if m["container"] in ("bare", "plain", "noschema") and int(p[2]) * 2 != len(p[1].replace("-", "")):
